@@ -490,6 +490,32 @@ def sampler_constants():
         out.append(("glrdSampleLimit", [], "(2 ^ 63 - 1)", descr))
     else:
         out.append(("glrdSampleLimit", [], None, descr + " (unsupported: {})".format(src(lim))))
+
+    # `if n <= sys.maxsize: return sorted(random.sample(range(1, n+1), k))` of sample_variables (randomformulas.py;
+    # imported by randomkxor.py): the largest n for which random.sample is asked; the randint loop comes after the `if`
+    def sample_limit_return(fn, var):
+        if fn is None:
+            return None
+        for n in fn.body:
+            if isinstance(n, ast.If) and isinstance(n.test, ast.Compare) and isinstance(n.test.left, ast.Name) \
+                    and n.test.left.id == var and len(n.test.ops) == 1 and isinstance(n.test.ops[0], ast.LtE) \
+                    and not n.orelse and n.body and isinstance(n.body[-1], ast.Return) \
+                    and any(isinstance(c, ast.Call) and isinstance(c.func, ast.Attribute) and c.func.attr == "sample"
+                            for b_ in n.body for c in ast.walk(b_)) \
+                    and any(isinstance(c, ast.Call) and isinstance(c.func, ast.Attribute) and c.func.attr == "randint"
+                            for later in fn.body[fn.body.index(n) + 1:] for c in ast.walk(later)):
+                return n.test.comparators[0]
+        return None
+    tf = parse("cnfgen/families/randomformulas.py")
+    lim = sample_limit_return(fn_named(tf, "sample_variables"), "n")
+    descr = "largest n for which sample_variables asks random.sample (`sys.maxsize` of the 64 bit platform)"
+    if lim is None:
+        out.append(("sampleVariablesLimit", [], None, descr + " (NOT FOUND)"))
+    elif isinstance(lim, ast.Attribute) and isinstance(lim.value, ast.Name) and lim.value.id == "sys" \
+            and lim.attr == "maxsize" and __import__("sys").maxsize == 2 ** 63 - 1:
+        out.append(("sampleVariablesLimit", [], "(2 ^ 63 - 1)", descr))
+    else:
+        out.append(("sampleVariablesLimit", [], None, descr + " (unsupported: {})".format(src(lim))))
     return out
 
 
